@@ -20,6 +20,12 @@ func (g *Gen) instr(in ssa.Instruction, li *loopInfo) {
 		if id, ok := x.Expr.(*ast.Ident); ok && !x.IsAddr && id.Name != "_" {
 			if _, isFn := x.X.(*ssa.Function); !isFn {
 				fr.named[id.Name] = x.X
+				if fr.c != nil && len(fr.c.Asserts) > 0 && !fr.inl {
+					// anchor "def <var>#k": after the k-th (source order) definition/assignment of variable <var>
+					if k := g.defOrdinal(fr, id); k > 0 {
+						g.atAnchor(fmt.Sprintf("def %s#%d", id.Name, k), &TEnv{g: g, vars: map[string]tvT{}})
+					}
+				}
 			}
 		}
 	case *ssa.BinOp:
@@ -442,7 +448,9 @@ func (g *Gen) ret(x *ssa.Return) {
 	renv := g.curEnv()
 	renv.old = nil
 	renv.oldEntry = true
-	g.atAnchor("return", renv)
+	retEnv := &TEnv{g: g, vars: map[string]tvT{}}
+	g.bindResults(retEnv, fr.fn.Signature, func(i int) string { return g.term(x.Results[i]) })
+	g.atAnchor("return", retEnv)
 	env := g.contractEnv()
 	g.bindResults(env, fr.fn.Signature, func(i int) string { return g.term(x.Results[i]) })
 	env.old = nil
@@ -642,19 +650,11 @@ func (g *Gen) callCommon(in *ssa.Call, cc *ssa.CallCommon, guard string) {
 			fr.val[in] = results[0]
 		}
 	}
-	if ct == nil {
-		if isIgnoredCall(callee, cc) {
-			return
-		}
-		g.note("uncontracted call (heap havoc): %s", key)
-		g.havocAll(guard)
-		return
-	}
-	if ct.Trusted != "" {
-		g.trustedUsed[shortFn(ct.Key)+": "+ct.Trusted] = true
-	}
 	// environment: callee parameter names -> argument terms
-	env := &TEnv{g: g, vars: map[string]tvT{}, pkg: ct.Pkg}
+	env := &TEnv{g: g, vars: map[string]tvT{}}
+	if ct != nil {
+		env.pkg = ct.Pkg
+	}
 	var sig *types.Signature
 	var pnames []string
 	var ptypes []types.Type
@@ -663,6 +663,21 @@ func (g *Gen) callCommon(in *ssa.Call, cc *ssa.CallCommon, guard string) {
 		for _, p := range callee.Params {
 			pnames = append(pnames, p.Name())
 			ptypes = append(ptypes, p.Type())
+		}
+		if callee.Params == nil {
+			// no body loaded (package outside the verified roots): names from the signature
+			if r := sig.Recv(); r != nil {
+				n := r.Name()
+				if n == "" || n == "_" {
+					n = "self"
+				}
+				pnames = append(pnames, n)
+				ptypes = append(ptypes, r.Type())
+			}
+			for i := 0; i < sig.Params().Len(); i++ {
+				pnames = append(pnames, sig.Params().At(i).Name())
+				ptypes = append(ptypes, sig.Params().At(i).Type())
+			}
 		}
 	} else {
 		sig = cc.Signature()
@@ -683,11 +698,21 @@ func (g *Gen) callCommon(in *ssa.Call, cc *ssa.CallCommon, guard string) {
 			env.vars[n] = tvT{t: g.term(args[i]), gt: ptypes[i]}
 		}
 	}
-	g.evalLets(ct, env.vars, false)
 	// ordinal of this call site (for assert-at anchors)
-	fr.callOrd[key]++
-	g.atAnchor(fmt.Sprintf("call %s#%d", lastName(key), fr.callOrd[key]), env)
+	g.atAnchor(fmt.Sprintf("call %s#%d", lastName(key), fr.callOrdinal(cc, key)), env)
 	g.atAnchor(fmt.Sprintf("call %s", lastName(key)), env)
+	if ct == nil {
+		if isIgnoredCall(callee, cc) {
+			return
+		}
+		g.note("uncontracted call (heap havoc): %s", key)
+		g.havocAll(guard)
+		return
+	}
+	if ct.Trusted != "" {
+		g.trustedUsed[shortFn(ct.Key)+": "+ct.Trusted] = true
+	}
+	g.evalLets(ct, env.vars, false)
 	for i, rq := range ct.Requires {
 		g.ob("pre:"+key, invLabel(rq, i), g.transBool(rq.E, env), rq.E.String())
 	}
@@ -725,20 +750,23 @@ func (g *Gen) atAnchor(anchor string, env *TEnv) {
 	}
 	for i, a := range c.Asserts {
 		if a.Anchor == anchor {
+			if g.firedAnchors == nil {
+				g.firedAnchors = map[string]bool{}
+			}
 			// parameters of the enclosing function are visible too (callee names shadow)
 			e2 := g.curEnv()
 			for k, v := range env.vars {
 				if _, exists := e2.vars[k]; !exists {
 					e2.vars[k] = v
-				} else {
-					e2.vars["callee_"+k] = v
 				}
+				e2.vars["callee_"+k] = v
 			}
 			e2.oldEntry = true
 			p, ok := g.tryTransBool(a.E, e2)
 			if !ok {
 				continue // clause mentions a program variable that is not defined on this path
 			}
+			g.firedAnchors[anchor] = true
 			g.ob("assert", invLabel(&Clause{Label: a.Label}, i), p, a.Anchor+": "+a.E.String())
 			g.assumeProved(g.curR, p)
 		}
@@ -1049,4 +1077,41 @@ func (g *Gen) inlineCall(in *ssa.Call, callee *ssa.Function, cc *ssa.CallCommon,
 	} else {
 		caller.tuple[in] = results
 	}
+}
+
+// isAssignTarget: the identifier occurrence is a definition or the target of an assignment
+// (x := e, x = e, x += e, x++, var x = e, range key/value) in the function's syntax.
+func (g *Gen) isAssignTarget(fr *frame, id *ast.Ident) bool {
+	if fr.assignPos == nil {
+		fr.assignPos = map[token.Pos]bool{}
+		if syn := fr.fn.Syntax(); syn != nil {
+			ast.Inspect(syn, func(n ast.Node) bool {
+				switch s := n.(type) {
+				case *ast.AssignStmt:
+					for _, l := range s.Lhs {
+						if i, ok := l.(*ast.Ident); ok {
+							fr.assignPos[i.Pos()] = true
+						}
+					}
+				case *ast.IncDecStmt:
+					if i, ok := s.X.(*ast.Ident); ok {
+						fr.assignPos[i.Pos()] = true
+					}
+				case *ast.ValueSpec:
+					for _, i := range s.Names {
+						fr.assignPos[i.Pos()] = true
+					}
+				case *ast.RangeStmt:
+					if i, ok := s.Key.(*ast.Ident); ok {
+						fr.assignPos[i.Pos()] = true
+					}
+					if i, ok := s.Value.(*ast.Ident); ok {
+						fr.assignPos[i.Pos()] = true
+					}
+				}
+				return true
+			})
+		}
+	}
+	return fr.assignPos[id.Pos()]
 }
